@@ -385,10 +385,20 @@ func c12Table(r *Run, ff []gts.Feature, tag string) {
 	r.count(fmt.Sprintf("%s/maxclass%d", tag, minInt(maxc, 6)))
 	r.eval(line, maxc >= 2)
 
+	// under the guards of the _partial theorems (plain table, injective grouping text) clauses
+	// (a)–(f) are proved: no known finding can explain a failure there
+	bits := c12ShapeBits(ff)
+	proved := bits[1] == '1' && bits[2] == '1'
+	if proved {
+		r.count("guard/plain+keysInj")
+	}
 	fail := func(oracle, g, want string, at int, cover bool) {
 		f := Failure{Oracle: oracle, Op: line, Got: g, Want: want, Finding: c12Attribute(ff, at, cover)}
 		if cover && f.Finding == "" {
 			f.Guard = c12Line("c12.k2", ff)
+		}
+		if proved {
+			f.Finding, f.Guard = "", ""
 		}
 		r.fail(f)
 	}
@@ -418,11 +428,16 @@ func c12Table(r *Run, ff []gts.Feature, tag string) {
 	out2, p2 := c12Run(out)
 	r.op(c12Line("feat.repair", out))
 	if p2 {
-		fail("(b) Repair is idempotent (second Repair panics)", "PANIC", got, -1, false)
+		f := Failure{Oracle: "(b) Repair is idempotent (second Repair panics)", Op: line, Got: "PANIC", Want: got}
+		if bits[0] == '0' {
+			f.Finding = "K12A"
+		}
+		r.fail(f)
 	} else if !c12TableEq(out2, out) {
-		f := Failure{Oracle: "(b) Repair is idempotent", Op: line, Got: c12EncTable(out2), Want: got, Finding: c12Attribute(ff, -1, false)}
-		if f.Finding == "" {
-			f.Finding = c12Attribute(out, -1, false)
+		// only a flattened join (written back unsorted) is known to break idempotence
+		f := Failure{Oracle: "(b) Repair is idempotent", Op: line, Got: c12EncTable(out2), Want: got}
+		if bits[0] == '0' {
+			f.Finding = "K12A"
 		}
 		r.fail(f)
 	}
